@@ -22,7 +22,7 @@ import (
 func init() {
 	register(&PropDef{
 		ID: "C02",
-		Rule: "plan = sync policy + caller/database choice + write workload of every family + clock advances + crash points (kill or power loss at the k-th file operation / hook inside a logged write, or at a command boundary) + 1-3 crash-recover-write-restart cycles; " +
+		Rule: "plan = sync policy + caller/database choice + write workload of every family + clock advances + crash points (kill or power loss at the k-th file operation / hook inside a logged write, or at a command boundary) + 1-3 crash-recover-write-restart cycles; profile pairs (1 in 3): two blind writes to one key from two connections run concurrently under the dice, then kill + restart at once (log order must equal effect order); " +
 			"non-trivial = at least one restore was checked after >=1 acknowledged write; distinct = hash of (policy, fault kind and site sequence, command-name sequence)",
 		FlakySig: "C02/nondeterministic-replay",
 		Gen:      func(r *Rng, tier string, idx int) *Plan { return genAOF(r, tier, idx, false) },
@@ -62,6 +62,10 @@ func genAOF(r *Rng, tier string, idx int, rewrite bool) *Plan {
 		n = r.Range(3, 40)
 	}
 	cycles := r.Range(1, 3)
+	pairs := !rewrite && idx%3 == 2
+	if pairs {
+		p.Profile = "pairs"
+	}
 	if rewrite && r.Chance(0.15) {
 		p.Ops = append(p.Ops, Op{Kind: "rewrite"}) // rewrite on a fresh log
 	}
@@ -81,6 +85,20 @@ func genAOF(r *Rng, tier string, idx int, rewrite bool) *Plan {
 			case !rewrite && r.Chance(0.1):
 				p.Ops = append(p.Ops, Op{Kind: "crash", N: int64(r.Intn(8)), S: Pick(r, []string{"kill", "power"})})
 				p.Ops = append(p.Ops, Op{C: r.Intn(2), Args: g.Cmd(r)})
+			case !rewrite && pairs && r.Chance(0.25):
+				// two blind writes to the same key from two connections, run concurrently
+				k := Pick(r, g.Keys)
+				blind := func() []string {
+					switch r.Intn(4) {
+					case 0:
+						return []string{"DEL", k}
+					case 1:
+						return []string{"MSET", k, Pick(r, defaultVals), Pick(r, g.Keys), Pick(r, defaultVals)}
+					}
+					return []string{"SET", k, Pick(r, defaultVals)}
+				}
+				c := r.Intn(2)
+				p.Ops = append(p.Ops, Op{Kind: "pairA", C: c, Args: blind()}, Op{Kind: "pairB", C: c, Args: blind()})
 			default:
 				p.Ops = append(p.Ops, Op{C: r.Intn(2), Args: g.Cmd(r)})
 			}
@@ -128,6 +146,7 @@ type aofRun struct {
 	skipped               int
 	hasRewrite            bool
 	concWriters           bool // a REWRITEAOF ran concurrently with writers since the last recovery
+	pairProbe             bool // the recovery in progress is the probe right after two concurrent blind writes
 }
 
 var runCounter atomic.Int64
@@ -322,6 +341,10 @@ func (a *aofRun) recover(image string, minIdx int, extra []map[string]string, ho
 			a.fail(lens, fmt.Sprintf("%s: restored dataset differs from an admissible state only in ways explained by [%s] (sync=%s): %s", how, lens, a.p.SK("sync"), DiffData(got, strip(c), "restored", "expected", 5)))
 			return false
 		}
+	}
+	if a.pairProbe {
+		a.fail("log-order/"+strings.Fields(how)[0], fmt.Sprintf("%s: the restored dataset is not the one the server held after both commands were acknowledged (restored = state #%d of %d the server passed through): %s", how, matched, len(prev), diff))
+		return false
 	}
 	if a.concWriters {
 		what := "not-a-state"
@@ -645,6 +668,16 @@ func (a *aofRun) runSeq() {
 			}
 		default: // command or rewrite
 			args := op.Args
+			if op.Kind == "pairA" && i+1 < len(p.Ops) && p.Ops[i+1].Kind == "pairB" && arm == nil {
+				if !a.writePair(op, p.Ops[i+1]) {
+					return
+				}
+				i++
+				continue
+			}
+			if op.Kind == "pairA" || op.Kind == "pairB" {
+				op.Kind = "" // its partner was shrunk away: an ordinary command
+			}
 			if op.Kind == "rewrite" && p.Profile == "conc" && arm == nil {
 				n, ok := a.rewriteConc(i)
 				if !ok {
